@@ -49,7 +49,7 @@ def cases(draw):
             "maxiter": draw(st.sampled_from([None, None, None, 400, 400, 2])),
             "use_hessian": draw(st.sampled_from([True, True, False]))}
     return {"model": model, "method": method, "x0kind": x0kind, "off": off, "points": pts, "opts": opts,
-            "deep_algorithms": draw(st.integers(0, 4)) == 0}
+            "deep_algorithms": draw(st.integers(0, 4)) == 0, "shared_prior": draw(st.booleans())}
 
 
 def strategy(tier):
@@ -135,6 +135,16 @@ def check(case):
         pn = [v.name for v in P.variables]
         if pn != names:
             return Result.violation("variable-order", f"P.variables={pn}, expected {names}; {desc}", classes)
+        if kw.get("options") is not None and case.get("shared_prior"):
+            # the caller's options dict was used before, for ANOTHER problem, together with maxiter=1: the dict object is the
+            # caller's own; what an earlier call added to the options it handed to SciPy must not travel with it
+            classes.append("options-dict-reused-after-an-earlier-solve")
+            try:
+                P0, _b0, _built0 = models.build_problem(model)
+                with seams.minimize_capture(run_real=False):
+                    P0.solve(method=method, maxiter=1, options=kw["options"])
+            except Exception:
+                pass
         try:
             with seams.minimize_capture(run_real=True) as cap:
                 sol = P.solve(method=method, **kw)
